@@ -319,3 +319,86 @@ func vFramesOf(start time.Time, bs []byte) [][]byte {
 	}
 	return frames
 }
+
+// ---- the framing rules, written down independently of the code under test -------------------
+
+type vSeg struct {
+	typed bool
+	raw   []byte
+}
+
+// vSegments cuts a stream into the messages the framing rules define: a run of bytes without a
+// start byte is one non-RTCM message; at a start byte the next four bytes are examined - a leader
+// with a non-zero reserved bit or a zero length makes those five bytes one non-RTCM message; a
+// stream that ends before the announced frame is complete gives one non-RTCM message with the
+// rest; a complete frame is one message, typed when its CRC matches and non-RTCM when it does not.
+func vSegments(bs []byte) []vSeg {
+	var out []vSeg
+	i := 0
+	for i < len(bs) {
+		if bs[i] != 0xd3 {
+			j := i
+			for j < len(bs) && bs[j] != 0xd3 {
+				j++
+			}
+			out = append(out, vSeg{false, bs[i:j]})
+			i = j
+			continue
+		}
+		if len(bs)-i < 5 {
+			out = append(out, vSeg{false, bs[i:]})
+			break
+		}
+		n := int(bs[i+1]&3)<<8 | int(bs[i+2])
+		if bs[i+1]&0xfc != 0 || n == 0 {
+			out = append(out, vSeg{false, bs[i : i+5]})
+			i += 5
+			continue
+		}
+		if len(bs)-i < n+6 {
+			out = append(out, vSeg{false, bs[i:]})
+			break
+		}
+		f := bs[i : i+n+6]
+		out = append(out, vSeg{vValid(f), f})
+		i += n + 6
+	}
+	return out
+}
+
+func (w *slowWriter) callCount() int {
+	w.mu.Lock()
+	defer w.mu.Unlock()
+	return w.calls
+}
+
+// vStreamStray makes a stream in which stray start bytes (false frame starts: a reserved bit set,
+// a zero length, a start byte in junk) sit at every small distance in front of valid frames, and
+// which may end a few bytes into a frame.
+func vStreamStray(r *rand.Rand) []byte {
+	var bs []byte
+	for k := 0; k < 1+r.Intn(4); k++ {
+		switch r.Intn(4) {
+		case 0:
+			bs = append(bs, 0xd3, byte(4+r.Intn(250)))
+		case 1:
+			bs = append(bs, 0xd3, 0, 0)
+		case 2:
+			bs = append(bs, vJunk(r, 1+r.Intn(3))...)
+			bs = append(bs, 0xd3)
+		default:
+			bs = append(bs, 0xd3, byte(r.Intn(4)), byte(r.Intn(256)))
+		}
+		bs = append(bs, vJunk(r, r.Intn(6))...)
+		bs = append(bs, vRandFrame(r, 1+r.Intn(30))...)
+		if r.Intn(2) == 0 {
+			bs = append(bs, vRandFrame(r, 1+r.Intn(30))...)
+		}
+	}
+	if r.Intn(3) == 0 {
+		// the input ends 1..5 bytes into a frame
+		f := vRandFrame(r, 4+r.Intn(20))
+		bs = append(bs, f[:1+r.Intn(5)]...)
+	}
+	return bs
+}
